@@ -28,6 +28,14 @@ fn c02_cmp_int() {
     kani::cover!(true);
     assert!(Some(frag_cmp_int(&op, &FV::int(f), &FV::int(v))) == spec_rel_i64(&op, f, v), "OBL C02.cmp.int");
 }
+// an integer column against a literal / expression value with a fractional part: compared as real numbers, not truncated
+#[kani::proof]
+fn c02_cmp_int_fractional() {
+    let op = any_cmp_op(); let f: i32 = kani::any(); let k: i32 = kani::any();
+    let v = (k as f64) + 0.5;
+    kani::cover!(f == k);
+    assert!(Some(frag_cmp_int(&op, &FV::int(f as i64), &FV::float(v))) == spec_rel_f64(&op, f as f64, v), "OBL C02.cmp.int.fractional");
+}
 #[kani::proof]
 fn c02_cmp_float() {
     let op = any_cmp_op(); let f: f64 = kani::any(); let v: f64 = kani::any();
